@@ -42,3 +42,86 @@ def _(fobj: "bytes"):
                            assert_(rec_end(B, p) == file_pos(fobj)),
                            assert_(setting.value == B[p + 6:rec_end(B, p)])])
     domain(fobj=gen_config_blocks())
+
+
+@contract("dissect.cobaltstrike.beacon:parse_recover_binary", props=["C03", "C04", "C13"])
+def _(program: "bytes"):
+    """for EVERY well-formed step list (ghost parameter): decoding its encoding (optionally followed by a zero opcode
+    and anything) yields precisely those steps and arguments, in order, and nothing else"""
+    logical(steps="list[tuple[str,any]]", tail="bytes")
+    requires(forall(lambda j: rstep_ok(steps[j][0], steps[j][1]), 0, len(steps)))
+    requires(program == enc_recover(steps, 0) + tail)
+    requires(len(tail) == 0 or (len(tail) >= 4 and tail[0] == 0 and tail[1] == 0 and tail[2] == 0 and tail[3] == 0))
+    ensures(len(result) == len(steps))
+    ensures(forall(lambda j: result[j][0] == steps[j][0] and same(result[j][1], steps[j][1]), 0, len(steps)))
+    returns("list[tuple[str,any]]")
+    local(rsteps="list[tuple[str,any]]")
+    loop(0, index="k", invariant=[
+        k <= len(steps), len(rsteps) == k, file_content(p) == program, 0 <= file_pos(p), file_pos(p) <= len(program),
+        program[file_pos(p):] == enc_recover(steps, k) + tail,
+        forall(lambda j: rsteps[j][0] == steps[j][0] and same(rsteps[j][1], steps[j][1]), 0, k)],
+        decreases=len(program) - file_pos(p))
+
+
+@contract("dissect.cobaltstrike.beacon:parse_transform_binary", props=["C03", "C04", "C13"])
+def _(program: "bytes", build: "str"):
+    """for EVERY well-formed transform program (ghost step list over the full opcode set with arbitrary byte arguments):
+    decoding its encoding (optionally followed by a zero opcode and anything) yields precisely those steps, in order"""
+    logical(steps="list[tuple[str,any]]", tail="bytes")
+    requires(forall(lambda j: tstep_ok(steps[j][0], steps[j][1], build), 0, len(steps)))
+    requires(program == enc_transform(steps, 0) + tail)
+    requires(len(tail) < 4 or (tail[0] == 0 and tail[1] == 0 and tail[2] == 0 and tail[3] == 0))
+    ensures(len(result) == len(steps))
+    ensures(forall(lambda j: result[j][0] == steps[j][0] and tval_eq(result[j][1], steps[j][1]), 0, len(steps)))
+    returns("list[tuple[str,any]]")
+    local(tsteps="list[tuple[any,any]]")
+    loop(0, index="k", invariant=[
+        k <= len(steps), len(tsteps) == k, file_content(p) == program, 0 <= file_pos(p), file_pos(p) <= len(program),
+        program[file_pos(p):] == enc_transform(steps, k) + tail,
+        forall(lambda j: tsteps[j][0] == steps[j][0] and tval_eq(tsteps[j][1], steps[j][1]), 0, k)],
+        decreases=len(program) - file_pos(p))
+
+
+@contract("dissect.cobaltstrike.beacon:parse_pivot_frame", props=["C03"])
+def _(data: "bytes"):
+    """pivot frame header: u16 big-endian (length of the frame bytes + 4) followed by the frame bytes"""
+    logical(frame="bytes", tail="bytes")
+    requires(len(frame) + 4 < 65536, data == int.to_bytes(len(frame) + 4, 2, "big") + frame + tail)
+    ensures(result == frame)
+    returns("bytes")
+
+
+@contract("dissect.cobaltstrike.beacon:parse_process_injection_transform_steps", props=["C03"])
+def _(data: "bytes"):
+    """process-inject transform: two length-prefixed byte strings, the bytes to append and the bytes to prepend"""
+    logical(a="bytes", b="bytes")
+    requires(len(a) < 4294967296, len(b) < 4294967296)
+    requires(data == int.to_bytes(len(a), 4, "big") + a + int.to_bytes(len(b), 4, "big") + b)
+    ensures(len(result) == 2, result[0][0] == "append", as_bytes(result[0][1]) == a, result[1][0] == "prepend",
+            as_bytes(result[1][1]) == b)
+    returns("list[tuple[str,any]]")
+    local(steps="list[tuple[str,any]]")
+
+
+@contract("dissect.cobaltstrike.beacon:null_terminated_bytes", props=["C03", "C13"])
+def _(data: "bytes"):
+    """the bytes before the first NUL (everything if there is none); embedded high bytes are kept"""
+    ensures(result == (data if data.find(b"\x00") == -1 else data[:data.find(b"\x00")]))
+    returns("bytes")
+    domain(data=bytes_(alphabet=b"\x00A\xff", maxlen=4))
+
+
+@contract("dissect.cobaltstrike.beacon:null_terminated_str", props=["C03", "C13"])
+def _(data: "bytes"):
+    """the NUL-terminated prefix as text: one character per byte (latin-1), nothing dropped or added"""
+    ensures(len(result) == len(data if data.find(b"\x00") == -1 else data[:data.find(b"\x00")]))
+    ensures(forall(lambda i: ord(result[i]) == data[i], 0, len(result)))
+    returns("str")
+    domain(data=bytes_(alphabet=b"\x00A\xff", maxlen=4))
+
+
+@contract("dissect.cobaltstrike.beacon:sha256sum_pubkey", props=["C03"])
+def _(der_data: "bytes"):
+    """hex digest of SHA-256 over the DER data without its trailing NUL padding"""
+    ensures(result == hex_of(sha256(der_data.rstrip(b"\x00"))))
+    returns("str")
